@@ -91,6 +91,28 @@ add('C04', 'TLC trace validation (ViewsTrace.tla) of the views recorded from the
     'Bounded node budget; the complete content list is expr.all as the property says; identity of the underlying object '
     'identifies an item across views.', '7 (C04)')
 
+add('C09', DOCGEN + 'separators before argument groups (attaching set) and detaching sibling material; StructureWF + Conserves; '
+    'replay: abstract tree (argument kinds/order/contents, following siblings) = oracle',
+    'The derivation itself says which groups are arguments (attaching separators stand before argument groups, detaching material '
+    'is sibling text); TLC checks the reader machine reproduces the oracle and every layout is replayed on the real parser.',
+    'Bounded budget; brackets precede braces; separators from a fixed attaching / detaching set.', '7 (C09)')
+add('C10', DOCGEN + 'comment payloads from a hostile alphabet in every context, backslash parity texts; RoundTrip + StructureWF + '
+    'search for payload names; replay on the real parser',
+    'The oracle tree has one comment leaf and is otherwise independent of the payload; TLC checks the reader machine reproduces it '
+    'for every hostile payload in every context and that names occurring only in payloads are not found; each document is replayed.',
+    'Bounded budget; hostile payload alphabet and contexts as listed in harness/props/c10.py.', '7 (C10)')
+add('C11', DOCGEN + 'verbatim-like environments (all built-in names + user names via skip_envs) with hostile bodies at top level '
+    'and nested in named environments; RoundTrip + StructureWF + blind search; replay with the same skip_envs; option-off scope',
+    'The oracle has one text leaf = the body; TLC checks the reader machine reproduces it, never errs and is blind inside; every '
+    'document is replayed on the real parser with the same skip_envs; the same user names without the option are checked as ordinary '
+    'environments. One known finding (leading line break + brace read as options) is listed in known_findings.json.',
+    'Bounded budget; provisos of the property taken literally.', '7 (C11)')
+add('C12', DOCGEN + 'the four delimiter pairs and all named math environments, bodies with unbalanced brackets, every sizing command '
+    'x delimiter, zero-argument operators, escaped dollars, every context; RoundTrip + StructureWF + search; replay',
+    'The oracle has one math node of the right kind per region; TLC checks the reader machine reproduces it and finds the commands '
+    'inside; each document is replayed on the real parser (text, node kinds and bodies, search).',
+    'Bounded budget; brackets directly after ordinary / sizing commands and adjacent "$" regions excluded as the property says.', '7 (C12)')
+
 NOT_YET = 'check not built yet in this round (planned, see DESIGN.md section 7)'
 
 
